@@ -108,7 +108,7 @@ class C06(core.PropertyCheck):
                 for m in placed:
                     tree.insert(rng.randrange(len(tree) + 1), [m, []])
                 yield {"kind": "cut", "tree": tree, "start": S if want_s else None, "end": E if want_e else None,
-                       "replacement": rng.random() < 0.2}
+                       "replacement": rng.random() < 0.2, "twice": rng.random() < 0.3}
             else:
                 nfiles = rng.randint(1, 6)
                 files = [f"f{i}.rst" for i in range(nfiles)]
@@ -162,7 +162,11 @@ class C06(core.PropertyCheck):
             dchildren = [n.Directive((900,), [n.Paragraph((901,), [n.Text((902,), "v")])], "", "replacement", [n.Text((900,), "nm")], {}),
                          n.Paragraph((903,), [n.Text((904,), "dropped")])]
         d = n.Directive((800,), dchildren, "", "include", [n.Text((800,), "/inc.rst")], opts)
-        index = pp.page("index.txt", [d])
+        tops = [d]
+        if case.get("twice"):
+            # the same bounded excerpt a second time on the page: must be an independent copy
+            tops.append(n.Directive((801,), [], "", "include", [n.Text((801,), "/inc.rst")], dict(opts)))
+        index = pp.page("index.txt", tops)
         return index, inc, d
 
     def run_impl(self, case):
@@ -176,9 +180,13 @@ class C06(core.PropertyCheck):
                 return {"exc": type(e).__name__, "msg": str(e)[:200], "model_in": model_in}
             page = res.pages[n.FileId("index.txt")]
             dd = page.ast.children[0]
-            diags = [[type(x).__name__, x.message] for x in res.diagnostics.get(n.FileId("index.txt"), [])]
+            diags = [[type(x).__name__, x.message] for x in res.diagnostics.get(n.FileId("index.txt"), []) if x.start[0] != 801]
+            shared = False
+            if case.get("twice") and len(page.ast.children) == 2:
+                a = {id(x) for c in page.ast.children[0].children for x in pp.walk(c)}
+                shared = any(id(x) in a for c in page.ast.children[1].children for x in pp.walk(c))
             other = {str(k): [type(x).__name__ for x in v] for k, v in res.diagnostics.items() if str(k) != "index.txt" and v}
-            return {"exc": None, "model_in": model_in, "out": [nested_ids(c) for c in dd.children], "diags": diags, "other_diags": other,
+            return {"exc": None, "model_in": model_in, "out": [nested_ids(c) for c in dd.children], "diags": diags, "other_diags": other, "shared": shared,
                     "source_untouched": json.dumps(nested_ids(inc.ast)) == before}
         # expand
         pages = []
@@ -346,6 +354,8 @@ class C06(core.PropertyCheck):
                 return f"diagnostics differ from reference: want {sorted(want_diags)} got {impl['diags']}"
             return None
         # cut: judged only when markers are unique (the property's "the named markers")
+        if impl.get("shared"):
+            return "two expansions of the same bounded include share node objects"
         if not impl["source_untouched"]:
             return "the included file's stored AST was modified by the cut (copies are not independent)"
         flat = []  # (id, kind, subtree_last_index)
